@@ -1,9 +1,12 @@
 package mon
 
 import (
+	ipfslog "berty.tech/go-ipfs-log"
 	"bytes"
 	"fmt"
 	"math/bits"
+	"sync"
+	"sync/atomic"
 
 	"berty.tech/go-ipfs-log/iface"
 
@@ -334,6 +337,66 @@ func CheckC05(run *evid.Run) {
 		U := model.Set{}
 		for r := range x.Logs {
 			U = model.Union(U, prevSet(prev[r]))
+		}
+		// "merges never alter entries held by other log instances" - also not for a moment: three fresh logs merge
+		// the same replica at the same time while a watcher keeps digesting the entries that replica holds
+		if i%4 == 0 && h.Codec != "pb" {
+			src := x.Logs[0]
+			for _, l := range x.Logs {
+				if l.Len() > src.Len() {
+					src = l
+				}
+			}
+			if held := src.GetEntries().Slice(); len(held) >= 3 {
+				want := map[iface.IPFSLogEntry]string{}
+				for _, e := range held {
+					want[e] = hx.ContentDigest(e)
+				}
+				stop := make(chan struct{})
+				var changed atomic.Value
+				var wwg, mwg sync.WaitGroup
+				wwg.Add(1)
+				go func() {
+					defer wwg.Done()
+					for {
+						for e, d := range want {
+							if now := hx.ContentDigest(e); now != d {
+								changed.Store(fmt.Sprintf("entry %s (key %d bytes, sig %d bytes)", hx.Short(e.GetHash().String()), len(e.GetKey()), len(e.GetSig())))
+								return
+							}
+						}
+						select {
+						case <-stop:
+							return
+						default:
+						}
+					}
+				}()
+				errs := make([]error, 3)
+				for g := 0; g < 3; g++ {
+					dst := x.W.NewLog(0)
+					mwg.Add(1)
+					go func(g int, dst *ipfslog.IPFSLog) {
+						defer mwg.Done()
+						_, errs[g] = dst.Join(src, -1)
+					}(g, dst)
+				}
+				mwg.Wait()
+				close(stop)
+				wwg.Wait()
+				run.Count("concurrent_merges_of_one_source_with_a_watcher", 1)
+				wt := histSample(h)
+				wt["at"] = "after the history: three fresh logs merge the largest replica at the same time"
+				if c := changed.Load(); c != nil {
+					run.Violate("C05/shared-entry-mutated", det("codec", h.Codec, "op", "concurrent merges of one source", "when", "during the merges"), wt, "while other logs were merging it, %s held by the source log did not have its content (a merge wrote to an entry of another log instance)", c)
+				}
+				for g, err := range errs {
+					if err != nil {
+						run.Violate("C05/op-error", det("op", "concurrent merges of one source", "codec", h.Codec), wt, "merge %d of 3 concurrent merges of the same honest log failed: %v", g, err)
+						break
+					}
+				}
+			}
 		}
 		run.Eval(1)
 		run.Count("codec_"+h.Codec, 1)
